@@ -187,6 +187,8 @@ def call(f, *args):
         return 'err key'
     except ValueError:
         return 'err value'
+    except Exception as e:          # the model has no such branch: shows up as a diff, not as a harness crash
+        return f'raised {type(e).__name__}'
 
 
 def gen_subl(rng, n, kind):
@@ -285,6 +287,8 @@ def sub_ops(rng, mods, count):
             r = canon_stmts(asm, [i for e in dis.entries for i in e.instructions])
         except (IndexError, KeyError, ValueError) as e:
             r = {'IndexError': 'err index', 'KeyError': 'err key', 'ValueError': 'err value'}[type(e).__name__]
+        except Exception as e:
+            r = f'raised {type(e).__name__}'
         impl.append(r)
     return ops, impl
 
@@ -335,7 +339,10 @@ def walk_ops(rng, mods, gen_bytes, count):
                 if h:
                     rsts.append(f'{a}:{h[0]}:{fmt_subl(h[1])}')
         ops.append(f'walk {wrap} {start} {end} {lo} | {window_of(snapshot, lo, lo + n)} | {lens} | ' + ' '.join(rsts))
-        impl.append(canon_stmts(asm, d.disassemble(start, end, 'n')).replace('/C/', '/X/').replace('/B/', '/X/'))
+        try:
+            impl.append(canon_stmts(asm, d.disassemble(start, end, 'n')).replace('/C/', '/X/').replace('/B/', '/X/'))
+        except Exception as e:
+            impl.append(f'raised {type(e).__name__}')
     return ops, impl
 
 
@@ -406,6 +413,8 @@ def bin_ops(rng, mods, scratch, count):
         except skoolkit.SkoolParsingError as e:
             m = re.search(r'Failed to assemble:\s+(\d+) ', str(e))
             impl.append(f'err failed {m.group(1)}' if m else 'raised ' + str(e)[:60])
+        except Exception as e:
+            impl.append(f'raised {type(e).__name__}')
     return ops, impl
 
 
@@ -484,6 +493,8 @@ def emit_ops(rng, mods, scratch, gen_bytes, ctl_gen, count):
                 skipped += 1          # multi-part sublength statement cut by the end of its sub-block: outside the model
                 continue
             r = {'IndexError': 'err index', 'KeyError': 'err key', 'ValueError': 'err value'}[type(e).__name__]
+        except Exception as e:
+            r = f'raised {type(e).__name__}'
         ops.append(emit_op('emit', cfg, min_a, max_a, lo, snapshot, n, d, lines))
         impl.append(r)
         tags.append(tag)
